@@ -328,3 +328,15 @@ pub fn take_panic_location() -> String {
         .with(|c| c.borrow_mut().take())
         .unwrap_or_else(|| "?".to_string())
 }
+
+
+/// The oracle's own table of which worker-loss reasons are failures (C07: "lost due to a failure
+/// (not a stop, idle timeout or time limit)"). Deliberately NOT `LostWorkerReason::is_failure`,
+/// which is code under test.
+pub fn loss_is_failure(reason: &tako::gateway::LostWorkerReason) -> bool {
+    use tako::gateway::LostWorkerReason::*;
+    match reason {
+        ConnectionLost | HeartbeatLost => true,
+        Stopped | IdleTimeout | TimeLimitReached => false,
+    }
+}
